@@ -395,7 +395,12 @@ def validate_trace(tag, module, cfg_text, events, nproc=16, timeout=3600, extra_
     if not events:
         return {}, [], []
     nproc = max(1, min(nproc, len(events)))
-    chunks = [events[k::nproc] for k in range(nproc)]
+    if isinstance(events[0], list):
+        # groups of events (behaviours) that must stay together and in order
+        chunks = [[e for g in events[k::nproc] for e in g] for k in range(nproc)]
+        events = [e for g in events for e in g]
+    else:
+        chunks = [events[k::nproc] for k in range(nproc)]
     cfg = "SPECIFICATION %s\nPOSTCONDITION Done\nCHECK_DEADLOCK FALSE\n%s" % (spec_name, cfg_text)
 
     def one(k):
